@@ -16,6 +16,19 @@ class Divergence(Exception):
     pass
 
 
+class Deadlock(Exception):
+    """no thread reaches a scheduling point or finishes any more: the thread that holds the
+    baton is blocked on something outside the scheduler (a real lock held by a suspended thread)"""
+
+    def __init__(self, msg, choices, tid):
+        Exception.__init__(self, msg)
+        self.choices = choices
+        self.tid = tid
+
+
+STALL_SECONDS = float(os.environ.get('VERIF_STALL_SECONDS', '30'))
+
+
 class Execution:
     def __init__(self):
         self.choices = []
@@ -37,6 +50,8 @@ class Baton:
         self.finished = threading.Semaphore(0)
         self.max_points = max_points
         self.abort = None
+        self.current = None
+        self.ticks = 0
 
     # -- choice -------------------------------------------------------------------------
     def choose(self, enabled, running_enabled):
@@ -55,6 +70,7 @@ class Baton:
         return enabled[c]
 
     def point(self, tid):
+        self.ticks += 1
         if self.abort is not None:
             return
         others = [t for t in range(self.n) if t != tid and not self.done[t]]
@@ -62,6 +78,7 @@ class Baton:
             return
         nxt = self.choose([tid] + others, True)
         if nxt != tid:
+            self.current = nxt
             self.sems[nxt].release()
             self.sems[tid].acquire()
 
@@ -82,6 +99,8 @@ class Baton:
                     nxt = self.choose(others, False)
                 else:
                     nxt = others[0]
+                self.current = nxt
+                self.ticks += 1
                 self.sems[nxt].release()
             else:
                 self.finished.release()
@@ -107,8 +126,19 @@ class Baton:
         for t in threads:
             t.start()
         first = self.choose(list(range(self.n)), False)
+        self.current = first
         self.sems[first].release()
-        self.finished.acquire()
+        # the wait is a liveness watch, not a time limit: it only gives up when NO scheduling point
+        # was passed and no thread finished during a whole interval
+        seen = -1
+        while not self.finished.acquire(timeout=STALL_SECONDS):
+            if self.ticks == seen:
+                raise Deadlock('thread %d holds the baton but passed no scheduling point for %d s after %d points: it is blocked '
+                               'outside the scheduler (threads still suspended: %s)' % (
+                                   self.current, STALL_SECONDS, len(self.x.points),
+                                   [t for t in range(self.n) if not self.done[t] and t != self.current]),
+                               list(self.x.choices), self.current)
+            seen = self.ticks
         for t in threads:
             t.join(30)
         if self.abort is not None:
